@@ -320,3 +320,266 @@ def r07_4(ctx, repo):
                            'membership test on plain python values')
     if n < 1:
         ctx.error(rule, 'no membership test on selection rows found')
+
+
+# -----------------------------------------------------------------------------
+# R05.3 / R17.1 — elementary population models
+# -----------------------------------------------------------------------------
+R_OBS = sym('n_obs_ids')       # rows of `observations` / eta
+
+
+def _class_invariants(repo, cls):
+    """self._n_parameters etc. as symbolic expressions, from __init__ (and
+    set_n_ids) of the class."""
+    env = {'self._n_dim': N_DIM, 'self._n_ids': N_IDS,
+           'n_dim': N_DIM, 'dim_names': None, 'centered': True,
+           'n_ids': N_IDS}
+    lf = ShapeLifter(repo, cls, flags={'no_shortcut': True,
+                                       'dim_names': False})
+    for m in ('__init__', 'set_n_ids'):
+        k, fn = repo.resolve(cls, m)
+        if fn is None or k == 'PopulationModel':
+            continue
+        e2 = dict(env)
+        e2['no_shortcut'] = True
+        try:
+            lf._block(fn.body, e2, fn, 0, cls)
+        except Exception:
+            pass
+        for key, v in e2.items():
+            if key.startswith('self.') and key not in ('self._n_dim',
+                                                       'self._n_ids'):
+                env.setdefault(key, v)
+            elif key.startswith('self.'):
+                pass
+        # later definitions win for fields assigned in both
+        for key in ('self._n_parameters', 'self._parameter_names'):
+            if key in e2 and not isinstance(e2[key], Opaque):
+                env[key] = e2[key]
+    return env
+
+
+def _elementary(repo):
+    out = []
+    for k in repo.subclasses('PopulationModel', strict=True):
+        fn = repo.cls(k).methods.get('compute_sensitivities')
+        if fn is None:
+            continue
+        if any(isinstance(n, ast.Call) and U(n.func) == 'self._shape'
+               for n in ast.walk(fn)):
+            out.append(k)
+    return out
+
+
+def r05_3(ctx, repo):
+    rule = 'R05.3'
+    classes = _elementary(repo)
+    if len(classes) < 5:
+        ctx.error(rule, 'only %d elementary population models with a '
+                  '_shape-terminated compute_sensitivities (floor 5)'
+                  % len(classes))
+    for cls in classes:
+        inv = _class_invariants(repo, cls)
+        P = inv.get('self._n_parameters')
+        if not isinstance(P, sp.Expr):
+            ctx.error(rule, '%s: n_parameters not derived from __init__'
+                      % cls)
+            continue
+        fn = repo.method(cls, 'compute_sensitivities')
+        init = repo.method(cls, '__init__')
+        cent = 'centered' in [a.arg for a in init.args.args]
+        seen = set()
+        for centered in ([True, False] if cent else [True]):
+            for upstream in (False, True):
+                env = dict(inv)
+                env.update({
+                    'parameters': Arr([Ax(P, (('?theta', P),))]),
+                    'observations': Arr([Ax(R_OBS), Ax(N_DIM)]),
+                    'dlogp_dpsi': Arr([Ax(R_OBS), Ax(N_DIM)])
+                    if upstream else None,
+                    'reduce': Opaque('flag'), 'flattened': Opaque('flag'),
+                    'self._centered': centered,
+                })
+                lf = ShapeLifter(repo, cls, flags={
+                    'self._centered': centered,
+                    'dlogp_dpsi is None': not upstream})
+                lf.terminal = '_shape'
+                lf.explore_guards = True
+                try:
+                    lf.run(fn, env)
+                except Exception as e:
+                    ctx.error(rule, '%s.compute_sensitivities: %s: %s' % (
+                        cls, type(e).__name__, e))
+                    continue
+                construct = '%s.compute_sensitivities' % cls
+                for ev in lf.events:
+                    key = '%s %s' % (ev.kind, ' '.join(ev.msg.split())[:70])
+                    if (cls, key) in seen:
+                        continue
+                    seen.add((cls, key))
+                    ctx.violation(rule, repo.loc(ev.node, cls, fn.name),
+                                  construct, key, ev.msg, engine=ENG)
+                for node, vals in lf.terminals:
+                    if (cls, node.lineno, centered) in seen:
+                        continue
+                    seen.add((cls, node.lineno, centered))
+                    where = repo.loc(node, cls, fn.name)
+                    site = '%s [%s]' % (construct, 'centred' if centered
+                                        else 'non-centred')
+                    if len(vals) < 3 or not isinstance(vals[1], Arr) \
+                            or not isinstance(vals[2], Arr):
+                        ctx.error(rule, '%s line %d: dpsi/dtheta shapes not '
+                                  'derived (%r, %r)' % (
+                                      site, node.lineno, vals[1:2],
+                                      vals[2:3]))
+                        continue
+                    dpsi, dth = vals[1], vals[2]
+                    ok = dpsi.ndim == 2 and eq(dpsi.axes[0].size, R_OBS) \
+                        and eq(dpsi.axes[1].size, N_DIM)
+                    if ok:
+                        ctx.ok(rule, where, site, 'dpsi has shape '
+                               '(n_ids, n_dim)', engine=ENG)
+                    else:
+                        ctx.violation(
+                            rule, where, site, 'dpsi shape',
+                            'dpsi handed to _shape has shape %s, expected '
+                            '(n_ids, n_dim)' % (tuple(
+                                str(a.size) for a in dpsi.axes),),
+                            engine=ENG)
+                    if dth.ndim != 3:
+                        ctx.violation(
+                            rule, where, site, 'dtheta rank',
+                            'dtheta handed to _shape has %d axes, expected '
+                            '(n_ids, n_param_per_dim, n_dim)' % dth.ndim,
+                            engine=ENG)
+                        continue
+                    pp = sp.expand(dth.axes[1].size * dth.axes[2].size)
+                    if eq(pp, P) and eq(dth.axes[2].size, N_DIM) and eq(
+                            dth.axes[0].size, R_OBS):
+                        ctx.ok(rule, where, site,
+                               'dtheta has shape (n_ids, %s, n_dim) and '
+                               '%s * n_dim = n_parameters' % (
+                                   dth.axes[1].size, dth.axes[1].size),
+                               engine=ENG)
+                    else:
+                        w = sp.expand(pp - P)
+                        wit = {N_DIM: 2, N_IDS: 3, R_OBS: 3}
+                        ctx.violation(
+                            rule, where, site, 'dtheta shape',
+                            'dtheta handed to _shape has shape (%s): its '
+                            'flattened length per individual is %s but the '
+                            'model has n_parameters = %s (they differ by %s, '
+                            'e.g. %s vs %s for n_dim = 2): the gradient '
+                            'w.r.t. the population parameters has the wrong '
+                            'length' % (
+                                ', '.join(str(a.size) for a in dth.axes),
+                                pp, P, w, pp.subs(wit), P.subs(wit)),
+                            engine=ENG)
+        # parameter layout: reshape of the flat vector vs. default names
+        names = inv.get('self._parameter_names')
+        sites = {}
+        if isinstance(names, Arr) and names.ndim == 1:
+            sites['default names (__init__)'] = (names.axes[0].nest, init)
+        k, sfn = repo.resolve(cls, 'set_parameter_names')
+        if sfn is not None:
+            e2 = dict(inv)
+            e2['names'] = None
+            lf = ShapeLifter(repo, cls, flags={'names is None': True})
+            try:
+                lf.run(sfn, e2)
+                # the walker stores attribute assignments in its own env copy
+                e3 = dict(inv)
+                e3['names'] = None
+                lf._block(sfn.body, e3, sfn, 0, cls)
+                v = e3.get('self._parameter_names')
+                if isinstance(v, Arr) and v.ndim == 1 and v is not names:
+                    sites['reset names (set_parameter_names(None))'] = (
+                        v.axes[0].nest, sfn)
+            except Exception:
+                pass
+        for m in ('compute_sensitivities', 'compute_log_likelihood',
+                  'sample', 'compute_individual_parameters'):
+            k, mfn = repo.resolve(cls, m)
+            if mfn is None or k == 'PopulationModel':
+                continue
+            env = dict(inv)
+            env.update({
+                'parameters': Arr([Ax(P, (('?theta', P),))]),
+                'observations': Arr([Ax(R_OBS), Ax(N_DIM)]),
+                'eta': Arr([Ax(R_OBS), Ax(N_DIM)]),
+                'dlogp_dpsi': None, 'n_samples': sym('n_samples'),
+                'seed': Opaque('seed'), 'return_eta': False,
+                'reduce': Opaque('flag'), 'flattened': Opaque('flag')})
+            lf = ShapeLifter(repo, cls, flags={
+                'self._centered': False, 'dlogp_dpsi is None': True,
+                'return_eta': False, 'n_samples is None': False})
+            lf.terminal = '_shape'
+            try:
+                lf.run(mfn, env)
+            except Exception:
+                continue
+            if '?theta' in lf.defined:
+                sites['reshape of the flat vector in %s' % m] = (
+                    lf.defined['?theta'], mfn)
+        # moment helper: (n_param_per_dim, n_dim)
+        k, gfn = repo.resolve(cls, 'get_mean_and_std')
+        if gfn is not None:
+            env = dict(inv)
+            env['parameters'] = Arr([Ax(P, (('?theta', P),))])
+            lf = ShapeLifter(repo, cls)
+            try:
+                val = lf.run(gfn, env)
+            except Exception:
+                val = None
+            if isinstance(val, Arr) and val.ndim == 2:
+                tot = sp.expand(val.axes[0].size * val.axes[1].size)
+                where = repo.loc(gfn, cls, gfn.name)
+                if eq(tot, P):
+                    ctx.ok(rule, where, '%s.get_mean_and_std' % cls,
+                           'output has shape (%s, %s): one row per '
+                           'parameter kind' % (val.axes[0].size,
+                                               val.axes[1].size),
+                           engine=ENG)
+                else:
+                    ctx.violation(
+                        rule, where, '%s.get_mean_and_std' % cls,
+                        'moments shape',
+                        'the returned array has shape (%s, %s) = %s entries '
+                        'but the model has n_parameters = %s (mean and std '
+                        'per dimension): rows beyond the second are '
+                        'uninitialised for n_dim >= 2' % (
+                            val.axes[0].size, val.axes[1].size, tot, P),
+                        engine=ENG)
+        ref = None
+        for what, (nest, f) in sites.items():
+            if ref is None:
+                ref = (what, nest)
+                continue
+            where = repo.loc(f, cls, f.name)
+            if nest_eq(nest, ref[1]):
+                ctx.ok(rule, where, '%s layout' % cls,
+                       '%s uses the layout (%s) of the %s' % (
+                           what, nest_str(nest), ref[0]), engine=ENG)
+            else:
+                ctx.violation(
+                    rule, where, '%s layout' % cls, 'layout ' + what,
+                    'the %s lays the flat parameter vector out as (%s) but '
+                    'the %s as (%s): name k does not describe entry k' % (
+                        what, nest_str(nest), ref[0], nest_str(ref[1])),
+                    engine=ENG)
+        # (names as a list value)
+        if isinstance(names, Arr) and names.ndim == 1:
+            if eq(names.axes[0].size, P):
+                ctx.ok(rule, repo.loc(init, cls, '__init__'),
+                       '%s names' % cls,
+                       'default names list has n_parameters = %s entries, '
+                       'laid out (%s)' % (P, nest_str(names.axes[0].nest)),
+                       engine=ENG)
+            else:
+                ctx.violation(
+                    rule, repo.loc(init, cls, '__init__'), '%s names' % cls,
+                    'names length',
+                    'default parameter names have %s entries but '
+                    'n_parameters = %s' % (names.axes[0].size, P),
+                    engine=ENG)
+    ctx.floor(rule, 20)
